@@ -5,7 +5,7 @@
 From Coq Require Import List NArith ZArith Bool Ascii String.
 From Authlib Require Import Base.Bytes Base.Base64 Base.BigEndian Base.PyVal Base.Url Base.Percent Base.Utf8 Base.Form.
 From Authlib Require Proofs.UrlP.
-From Authlib Require Import Model.JWK Model.Claims Spec.ClaimsSpec Model.Resource Model.Scope Model.ClientAuth Model.Metadata Spec.MetadataSpec Model.Registration Model.Wire Model.OAuth1Sig Model.Authorize.
+From Authlib Require Import Model.JWK Model.Claims Spec.ClaimsSpec Model.Resource Model.Scope Model.ClientAuth Model.Metadata Spec.MetadataSpec Model.Registration Model.Wire Model.OAuth1Sig Model.Authorize Model.CodeFlow.
 Import ListNotations.
 Open Scope string_scope.
 
@@ -154,7 +154,7 @@ Definition dispatch_clientauth (fn : string) (a : pv) : option pv :=
     let reg := map (fun c => {| c_id := arg_s "id" c; c_secret := arg_s "secret" c; c_method := arg_s "method" c |})
                    (arg_l "registry" a) in
     let used := arg_strs "used_jti" a in
-    Some (match authenticate (arg_s "token_url" a) (fun j => negb (list_in_str j used)) (arg_z "now" a)
+    Some (match Model.ClientAuth.authenticate (arg_s "token_url" a) (fun j => negb (list_in_str j used)) (arg_z "now" a)
                   reg (creq_of_pv (arg "request" a)) (arg_strs "methods" a) (arg_s "endpoint" a) with
           | AOk id m => PList [PStr "ok"; PStr id; PStr m]
           | AInvalidClient st => PList [PStr "invalid_client"; PInt (Z.of_N st)]
@@ -279,6 +279,51 @@ Definition dispatch_authorize (fn : string) (a : pv) : option pv :=
     Some (pv_of_aresp (respond (acfg_of (arg "config" a)) (pairs_of_pv (arg "query" a)) (pairs_of_pv (arg "form" a)) (arg_b "approve" a)))
   else None.
 
+Definition o_sha256 (m : string) : string := pv_str (oracle "sha256" (PStr m)).
+
+Definition cred_of (v : pv) : cred :=
+  match v with
+  | PList [PStr k; PStr id; PStr sec] => if String.eqb k "basic" then CBasic id sec else CAbsent
+  | PList [PStr k; PStr id] => if String.eqb k "none" then CNone id else CAbsent
+  | _ => CAbsent
+  end.
+Definition onat (v : pv) : option nat := match v with PInt z => Some (Z.to_nat z) | _ => None end.
+Definition ostr (v : pv) : option string := match v with PStr s => Some s | _ => None end.
+
+Definition cf_op_of (v : pv) : op :=
+  let k := arg_s "op" v in
+  if String.eqb k "authorize" then
+    OAuthorize (arg_s "client" v) (ostr (arg "redirect" v)) (ostr (arg "scope" v)) (ostr (arg "challenge" v))
+               (ostr (arg "method" v)) (ostr (arg "approve" v))
+  else if String.eqb k "redeem" then ORedeem (onat (arg "code" v)) (cred_of (arg "cred" v)) (ostr (arg "redirect" v)) (ostr (arg "verifier" v))
+  else if String.eqb k "device_authorize" then ODeviceAuthorize (cred_of (arg "cred" v)) (ostr (arg "client_param" v)) (ostr (arg "scope" v))
+  else if String.eqb k "decide" then ODecide (pv_nat (arg "device" v)) (arg_s "user" v) (arg_b "approve" v)
+  else if String.eqb k "poll" then OPoll (onat (arg "device" v)) (cred_of (arg "cred" v))
+  else OTick (arg_z "dt" v).
+
+Definition pv_of_out (o : out) : pv :=
+  match o with
+  | OutCode n => PList [PStr "code"; PInt (Z.of_nat n)]
+  | OutDevice n => PList [PStr "device"; PInt (Z.of_nat n)]
+  | OutToken u sc => PList [PStr "token"; PStr u; pv_of_ostr sc]
+  | OutError e => PList [PStr "error"; PStr e]
+  | OutNone => PList [PStr "none"]
+  end.
+
+Definition dispatch_codeflow (fn : string) (a : pv) : option pv :=
+  if String.eqb fn "codeflow_run" then
+    let reg := map (fun c => {| cc_id := arg_s "id" c; cc_secret := arg_s "secret" c; cc_method := arg_s "method" c;
+                                cc_redirects := arg_strs "redirect_uris" c; cc_scope := arg_s "scope" c;
+                                cc_grants := arg_strs "grants" c |}) (arg_l "registry" a) in
+    let ops := map cf_op_of (arg_l "ops" a) in
+    let outs := run_outs reg o_sha256 (arg_b "pkce_required" a) CodeFlow.init ops in
+    let fin := CodeFlow.run reg o_sha256 (arg_b "pkce_required" a) ops in
+    Some (PDict [("outs", PList (map pv_of_out outs));
+                 ("live_codes", PList (map (fun c => PInt (Z.of_nat (cr_id c))) (s_codes fin)));
+                 ("tokens", PInt (Z.of_nat (List.length (s_tokens fin))))])
+  else if String.eqb fn "pkce_wf" then Some (PBool (pkce_wf (pv_str a)))
+  else None.
+
 Definition dispatch (fn : string) (a : pv) : pv :=
   if String.eqb fn "oracle_echo" then oracle "echo" a else
   match dispatch_jwk fn a with
@@ -313,6 +358,9 @@ Definition dispatch (fn : string) (a : pv) : pv :=
   | None =>
   match dispatch_authorize fn a with
   | Some r => r
+  | None =>
+  match dispatch_codeflow fn a with
+  | Some r => r
   | None => err ("unknown function " ++ fn)
-  end end end end end end end end end end end.
+  end end end end end end end end end end end end.
 End D.
